@@ -74,24 +74,25 @@ theorem has_mapSub (c p : Eru.Plan) (k : String) (h : c.has k = true) : (mapSub 
     simp only [List.foldl_cons]
     exact ih _ (by rw [Plan.has_add]; simp [h])
 
-/-- **affinity_keeps_partial**: the property holds on nodes without NUMA topology for whole-core
-    workloads.  Guards (each explicit): no NUMA map; every core's capacity is one share `B`
-    (`wholeCoreNode`); the workload's map has distinct keys, is non-empty and gives `B` pieces per core;
-    its cores are used by it alone (`usage = B`, which `Validate` forces on a whole-core node once the
-    workload lives there); its recorded CPU request is its number of cores (C05) with limit = request.
-    Excluded on purpose: bound workloads recorded with limit 0 or limit ≠ request — `Validate` then
-    rewrites the request (limit 0: unchanged request but the limit stays 0; limit > request: the request
-    is raised to the limit, i.e. the CPU amount *changes*, which is outside "no CPU change"); the fixed
-    code records request = limit for every bound deployment, so such records only come from elsewhere. -/
-theorem affinity_keeps_partial (info : NodeInfo) (B maxShare : Int) (w : Workload) (dm : Int) (w' : Workload)
+/-- reduction shared by the proved parts: an unchanged keep-bind re-allocation of a whole-core workload
+    (cores used by it alone, recorded request = number of cores) on a whole-core node is the first plan
+    of `GetCPUPlans` on the node with the workload given back, where all of the workload's cores are
+    whole free cores again and the request is exactly its number of cores -/
+theorem realloc_keep_reduce (info : NodeInfo) (B maxShare : Int) (w : Workload) (dm : Int) (order : List String) (w' : Workload)
     (hB : 1 ≤ B) (hB2 : (w.cpuMap.length : Int) * B ≤ 2 ^ 50)
-    (hck : info.cap.cpuMap.keys.Nodup) (huk : info.use.cpuMap.keys.Nodup) (hnuma : info.cap.numa = [])
+    (hck : info.cap.cpuMap.keys.Nodup) (huk : info.use.cpuMap.keys.Nodup)
     (hwhole : wholeCoreNode B info = true)
-    (hMk : w.cpuMap.keys.Nodup) (hM1 : w.cpuMap ≠ []) (hMv : ∀ kv ∈ w.cpuMap, kv.2 = B) (hwn : w.numa = "")
+    (hMk : w.cpuMap.keys.Nodup) (hM1 : w.cpuMap ≠ []) (hMv : ∀ kv ∈ w.cpuMap, kv.2 = B)
     (hlive : ∀ k ∈ w.cpuMap.keys, info.cap.cpuMap.has k = true ∧ info.use.cpuMap.get k = B)
     (hreq : w.cpuReq = (w.cpuMap.length : Int) * 1000 ∧ w.cpuLim = w.cpuReq)
-    (h : calculateRealloc info B maxShare w (keepReq dm) [] = .ok w') :
-    mapEq w'.cpuMap w.cpuMap = true ∧ w'.numa = w.numa := by
+    (h : calculateRealloc info B maxShare w (keepReq dm) order = .ok w') :
+    ∃ (req : Req) (pl : CpuPlan) (rest : List CpuPlan),
+      getCPUPlans (givenBack info w) w.cpuMap B maxShare req order = .ok (pl :: rest) ∧
+      w'.cpuMap = pl.cpuMap ∧ w'.numa = pl.numa ∧
+      piecesRequest req B = (w.cpuMap.length : Int) * B ∧
+      (givenBack info w).available.cpuMap.keys.Nodup ∧
+      (∀ k ∈ w.cpuMap.keys, isFull B ⟨k, (givenBack info w).available.cpuMap.get k⟩ = true ∧
+        (givenBack info w).available.cpuMap.has k = true) := by
   have hlenM : 1 ≤ w.cpuMap.length := by
     cases hm : w.cpuMap with
     | nil => exact absurd hm hM1
@@ -102,9 +103,8 @@ theorem affinity_keeps_partial (info : NodeInfo) (B maxShare : Int) (w : Workloa
     | cons _ _ => rfl
   unfold calculateRealloc at h
   rw [if_neg (by simp [reallocExact, keepReq])] at h
-  unfold reallocCore reallocReq reallocBind givenBack keepReq at h
+  unfold reallocCore reallocReq reallocBind keepReq at h
   simp only [hne, Bool.not_false, if_true, Int.zero_add] at h
-  -- request validation
   generalize hnr : ({ bind := true, cpuReq := w.cpuReq, cpuLim := w.cpuLim, memReq := dm + w.memReq, memLim := dm + w.memLim } : RawReq) = newReq at h
   have hnb : newReq.bind = true := by rw [← hnr]
   have hnc : newReq.cpuReq = w.cpuReq := by rw [← hnr]
@@ -128,14 +128,9 @@ theorem affinity_keeps_partial (info : NodeInfo) (B maxShare : Int) (w : Workloa
           · exact (Outcome.ok.inj hv).symm
     have hpre : newReq.pre = newReq := by
       unfold RawReq.pre; rw [if_neg (by omega)]
-    have hw2b : w2.bind = true := by rw [hw2, post_bind, hpre, hnb]
     have hw2c : w2.cpuReq = w.cpuReq := by rw [hw2, hpre, post_cpuReq _ hnl, hnc]
-    -- the scheduler call
-    generalize hi' : ({ cap := info.cap, use := info.use.sub { cpuMap := w.cpuMap, mem := w.memReq, numaMem := w.numaMem } } : NodeInfo) = info' at h
-    have hcap' : info'.cap = info.cap := by rw [← hi']
-    have hav : info'.available.cpuMap = mapSub info.cap.cpuMap (mapSub info.use.cpuMap w.cpuMap) := by
-      rw [← hi']; rfl
-    cases hg : getCPUPlans info' w.cpuMap B maxShare w2.toReq [] with
+    have hav : (givenBack info w).available.cpuMap = mapSub info.cap.cpuMap (mapSub info.use.cpuMap w.cpuMap) := rfl
+    cases hg : getCPUPlans (givenBack info w) w.cpuMap B maxShare w2.toReq order with
     | err e => rw [hg] at h; cases h
     | panic m => rw [hg] at h; cases h
     | diverge => rw [hg] at h; cases h
@@ -146,52 +141,163 @@ theorem affinity_keeps_partial (info : NodeInfo) (B maxShare : Int) (w : Workloa
       | cons pl rest =>
         simp only [Outcome.ok.injEq] at h
         subst h
-        simp only []
-        -- non-NUMA: the plan list is the cross-NUMA group
-        unfold getCPUPlans at hg
-        rw [if_neg (by omega), hcap', hnuma] at hg
-        simp only [numaLoop, List.nil_append] at hg
-        split at hg
-        · rename_i cross hcr
-          cases cross with
-          | nil => simp at hg
-          | cons c cs =>
-            simp only [List.map_cons, Outcome.ok.injEq, List.cons.injEq] at hg
-            obtain ⟨hpl, _⟩ := hg
-            subst hpl
-            simp only []
-            refine ⟨?_, hwn.symm⟩
-            -- hypotheses of the affinity argument
-            obtain ⟨u1, u2⟩ := mapSub_spec info.use.cpuMap w.cpuMap huk hMk
-            obtain ⟨a1, a2⟩ := mapSub_spec info.cap.cpuMap (mapSub info.use.cpuMap w.cpuMap) hck u1
-            have hpieces : piecesRequest w2.toReq B = (w.cpuMap.length : Int) * B := by
-              unfold piecesRequest RawReq.toReq
-              simp only [hw2c, hreq.1]
-              have e1 : ((w.cpuMap.length : Int) * 1000).toNat = w.cpuMap.length * 1000 := by omega
-              rw [e1]
-              have hBn : (B.toNat : Int) = B := Int.toNat_of_nonneg (by omega)
-              have := Eru.Float64.piecesRound_exact' (w.cpuMap.length * 1000) 1000 B.toNat (w.cpuMap.length * B.toNat)
-                (by omega) (Nat.mul_pos (by omega) (by omega)) (by
-                  have : ((w.cpuMap.length * B.toNat : Nat) : Int) ≤ 2 ^ 50 := by push_cast; rw [hBn]; exact hB2
-                  exact_mod_cast this) (by omega) (by ring)
-              rw [this]; push_cast; rw [hBn]
-            apply doGet_affinity_keeps w.cpuMap info'.available.cpuMap info'.available.mem B hB maxShare w2.toReq
-              hMk hM1 hMv (by rw [hav]; exact a1) ?_ hpieces c cs hcr
-            intro k hk
-            obtain ⟨hcapk, husek⟩ := hlive k hk
-            have hMg : w.cpuMap.get k = B := hMv _ (has_mem_get w.cpuMap k ((has_eq_mem_keys _ k).mpr hk))
-            have hcg : info.cap.cpuMap.get k = B := by
-              have hm := has_mem_get info.cap.cpuMap k hcapk
-              unfold wholeCoreNode at hwhole
-              rw [List.all_eq_true] at hwhole
-              have := hwhole _ hm
-              simpa using this
-            rw [hav]
-            refine ⟨?_, has_mapSub _ _ k hcapk⟩
-            rw [a2 k, u2 k, hcg, husek, hMg]
-            simp only [isFull, Int.sub_self, Int.sub_zero, Int.le_refl, decide_true, Bool.true_and, decide_eq_true_eq]
-            exact Int.tmod_self
-        all_goals cases hg
+        obtain ⟨u1, u2⟩ := mapSub_spec info.use.cpuMap w.cpuMap huk hMk
+        obtain ⟨a1, a2⟩ := mapSub_spec info.cap.cpuMap (mapSub info.use.cpuMap w.cpuMap) hck u1
+        have hpieces : piecesRequest w2.toReq B = (w.cpuMap.length : Int) * B := by
+          unfold piecesRequest RawReq.toReq
+          simp only [hw2c, hreq.1]
+          have e1 : ((w.cpuMap.length : Int) * 1000).toNat = w.cpuMap.length * 1000 := by omega
+          rw [e1]
+          have hBn : (B.toNat : Int) = B := Int.toNat_of_nonneg (by omega)
+          have := Eru.Float64.piecesRound_exact' (w.cpuMap.length * 1000) 1000 B.toNat (w.cpuMap.length * B.toNat)
+            (by omega) (Nat.mul_pos (by omega) (by omega)) (by
+              have : ((w.cpuMap.length * B.toNat : Nat) : Int) ≤ 2 ^ 50 := by push_cast; rw [hBn]; exact hB2
+              exact_mod_cast this) (by omega) (by ring)
+          rw [this]; push_cast; rw [hBn]
+        refine ⟨w2.toReq, pl, rest, hg, rfl, rfl, hpieces, by rw [hav]; exact a1, ?_⟩
+        intro k hk
+        obtain ⟨hcapk, husek⟩ := hlive k hk
+        have hMg : w.cpuMap.get k = B := hMv _ (has_mem_get w.cpuMap k ((has_eq_mem_keys _ k).mpr hk))
+        have hcg : info.cap.cpuMap.get k = B := by
+          have hm := has_mem_get info.cap.cpuMap k hcapk
+          unfold wholeCoreNode at hwhole
+          rw [List.all_eq_true] at hwhole
+          have := hwhole _ hm
+          simpa using this
+        rw [hav]
+        refine ⟨?_, has_mapSub _ _ k hcapk⟩
+        rw [a2 k, u2 k, hcg, husek, hMg]
+        simp only [isFull, Int.sub_self, Int.sub_zero, Int.le_refl, decide_true, Bool.true_and, decide_eq_true_eq]
+        exact Int.tmod_self
+
+/-- **affinity_keeps_partial**: the property holds on nodes without NUMA topology for whole-core
+    workloads.  Guards (each explicit): no NUMA map; every core's capacity is one share `B`
+    (`wholeCoreNode`); the workload's map has distinct keys, is non-empty and gives `B` pieces per core;
+    its cores are used by it alone (`usage = B`, which `Validate` forces on a whole-core node once the
+    workload lives there); its recorded CPU request is its number of cores (C05) with limit = request.
+    Excluded on purpose: bound workloads recorded with limit 0 or limit ≠ request — `Validate` then
+    rewrites the request (limit 0: unchanged request but the limit stays 0; limit > request: the request
+    is raised to the limit, i.e. the CPU amount *changes*, which is outside "no CPU change"); the fixed
+    code records request = limit for every bound deployment, so such records only come from elsewhere. -/
+theorem affinity_keeps_partial (info : NodeInfo) (B maxShare : Int) (w : Workload) (dm : Int) (w' : Workload)
+    (hB : 1 ≤ B) (hB2 : (w.cpuMap.length : Int) * B ≤ 2 ^ 50)
+    (hck : info.cap.cpuMap.keys.Nodup) (huk : info.use.cpuMap.keys.Nodup) (hnuma : info.cap.numa = [])
+    (hwhole : wholeCoreNode B info = true)
+    (hMk : w.cpuMap.keys.Nodup) (hM1 : w.cpuMap ≠ []) (hMv : ∀ kv ∈ w.cpuMap, kv.2 = B) (hwn : w.numa = "")
+    (hlive : ∀ k ∈ w.cpuMap.keys, info.cap.cpuMap.has k = true ∧ info.use.cpuMap.get k = B)
+    (hreq : w.cpuReq = (w.cpuMap.length : Int) * 1000 ∧ w.cpuLim = w.cpuReq)
+    (h : calculateRealloc info B maxShare w (keepReq dm) [] = .ok w') :
+    mapEq w'.cpuMap w.cpuMap = true ∧ w'.numa = w.numa := by
+  obtain ⟨req, pl, rest, hg, e1, e2, hpieces, hak, hfull⟩ :=
+    realloc_keep_reduce info B maxShare w dm [] w' hB hB2 hck huk hwhole hMk hM1 hMv hlive hreq h
+  -- non-NUMA: the plan list is the cross-NUMA group
+  unfold getCPUPlans at hg
+  have hcap' : (givenBack info w).cap = info.cap := rfl
+  rw [if_neg (by omega), hcap', hnuma] at hg
+  simp only [numaLoop, List.nil_append] at hg
+  split at hg
+  · rename_i cross hcr
+    cases cross with
+    | nil => simp at hg
+    | cons c cs =>
+      simp only [List.map_cons, Outcome.ok.injEq, List.cons.injEq] at hg
+      obtain ⟨hpl, _⟩ := hg
+      subst hpl
+      rw [e1, e2]
+      refine ⟨?_, hwn.symm⟩
+      exact doGet_affinity_keeps w.cpuMap _ _ B hB maxShare req hMk hM1 hMv hak hfull hpieces c cs hcr
+  all_goals cases hg
+
+theorem numaLoop_tags (origin : CpuMap) (numa : List (String × String)) (avail0 : CpuMap) (B maxShare : Int) (req : Req)
+    (order : List String) (avail : NodeRes) (acc acc' : List CpuPlan) (avail' : NodeRes)
+    (h : numaLoop origin numa avail0 B maxShare req order avail acc = .ok (acc', avail')) :
+    ∃ new, acc' = acc ++ new ∧ ∀ pl ∈ new, pl.numa ∈ order := by
+  induction order generalizing avail acc with
+  | nil => simp only [numaLoop] at h; cases h; exact ⟨[], by simp, by simp⟩
+  | cons node rest ih =>
+    simp only [numaLoop] at h
+    split at h
+    · rename_i plans _
+      obtain ⟨new, e, ht⟩ := ih _ _ h
+      refine ⟨(plans.map fun p => ⟨node, p⟩) ++ new, by rw [e, List.append_assoc], ?_⟩
+      intro pl hpl
+      rcases List.mem_append.mp hpl with hm | hm
+      · obtain ⟨p, _, rfl⟩ := List.mem_map.mp hm; simp
+      · exact List.mem_cons_of_mem _ (ht pl hm)
+    all_goals cases h
+
+/-- **affinity_keeps_numa** (the proved part widened to NUMA nodes): a whole-core workload all of whose
+    cores lie in its NUMA node `w.numa`, when Go's map iteration happens to visit that NUMA node FIRST
+    (`order = w.numa :: rest`, the hypothesis that D23b is about) — if the unchanged keep-bind
+    re-allocation stays on the NUMA node, it stays on exactly the same cores.  (Whether it stays on the
+    node also depends on the node's free NUMA memory for a positive memory delta.) -/
+theorem affinity_keeps_numa (info : NodeInfo) (B maxShare : Int) (w : Workload) (dm : Int) (rest : List String) (w' : Workload)
+    (hB : 1 ≤ B) (hB2 : (w.cpuMap.length : Int) * B ≤ 2 ^ 50)
+    (hck : info.cap.cpuMap.keys.Nodup) (huk : info.use.cpuMap.keys.Nodup) (hnk : (info.cap.numa.map (·.1)).Nodup)
+    (hwhole : wholeCoreNode B info = true)
+    (hMk : w.cpuMap.keys.Nodup) (hM1 : w.cpuMap ≠ []) (hMv : ∀ kv ∈ w.cpuMap, kv.2 = B)
+    (hwn : w.numa ≠ "") (hloc : ∀ k ∈ w.cpuMap.keys, (k, w.numa) ∈ info.cap.numa) (hnr : w.numa ∉ rest)
+    (hlive : ∀ k ∈ w.cpuMap.keys, info.cap.cpuMap.has k = true ∧ info.use.cpuMap.get k = B)
+    (hreq : w.cpuReq = (w.cpuMap.length : Int) * 1000 ∧ w.cpuLim = w.cpuReq)
+    (h : calculateRealloc info B maxShare w (keepReq dm) (w.numa :: rest) = .ok w') (hsame : w'.numa = w.numa) :
+    mapEq w'.cpuMap w.cpuMap = true := by
+  obtain ⟨req, pl, rest', hg, e1, e2, hpieces, hak, hfull⟩ :=
+    realloc_keep_reduce info B maxShare w dm (w.numa :: rest) w' hB hB2 hck huk hwhole hMk hM1 hMv hlive hreq h
+  rw [e1]
+  rw [e2] at hsame
+  have hcap' : (givenBack info w).cap = info.cap := rfl
+  unfold getCPUPlans at hg
+  rw [if_neg (by omega), hcap'] at hg
+  -- the first group is the workload's NUMA node
+  split at hg
+  · rename_i acc av hl
+    simp only [numaLoop] at hl
+    split at hl
+    · rename_i plans hp
+      obtain ⟨new, eacc, htags⟩ := numaLoop_tags _ _ _ _ _ _ _ _ _ _ _ hl
+      simp only [List.nil_append] at eacc
+      split at hg
+      · rename_i cross _
+        simp only [Outcome.ok.injEq] at hg
+        cases plans with
+        | cons p ps0 =>
+          -- the head of the result is the head of the first group
+          rw [eacc] at hg
+          simp only [List.map_cons, List.cons_append, List.cons.injEq] at hg
+          obtain ⟨hpl, _⟩ := hg
+          subst hpl
+          simp only []
+          apply doGet_affinity_keeps w.cpuMap (numaCpuMap info.cap.numa (givenBack info w).available.cpuMap w.numa) _ B hB maxShare req
+            hMk hM1 hMv (numaCpuMap_nodup _ _ _ hnk) ?_ hpieces p ps0 hp
+          intro k hk
+          have hno := numaOf_of_mem info.cap.numa hnk k w.numa (hloc k hk)
+          obtain ⟨hf, _⟩ := hfull k hk
+          refine ⟨?_, ?_⟩
+          · rw [numaCpuMap_get _ hnk, if_pos hno]; exact hf
+          · rw [has_eq_mem_keys, numaCpuMap_keys]
+            exact List.mem_map.mpr ⟨(k, w.numa), List.mem_filter.mpr ⟨hloc k hk, by simp⟩, rfl⟩
+        | nil =>
+          -- an empty first group: every plan is tagged with a later node or untagged, contradiction
+          exfalso
+          rw [eacc] at hg
+          simp only [List.map_nil, List.nil_append] at hg
+          have hmem : pl ∈ new ++ cross.map (fun p => (⟨"", p⟩ : CpuPlan)) := by rw [hg]; exact List.mem_cons_self ..
+          rcases List.mem_append.mp hmem with hm | hm
+          · exact hnr (hsame ▸ htags pl hm)
+          · obtain ⟨c, _, rfl⟩ := List.mem_map.mp hm
+            exact hwn hsame.symm
+      all_goals cases hg
+    all_goals cases hl
+  all_goals cases hg
+
+/-- `affinity_keeps_numa`'s situation, concretely: a workload on core 2 of NUMA node n1, n1 visited first -/
+example : calculateRealloc
+    { cap := { cpuMap := [("0",100),("1",100),("2",100),("3",100)], mem := 1000, numaMem := [("n0",500),("n1",500)],
+               numa := [("0","n0"),("1","n0"),("2","n1"),("3","n1")] },
+      use := { cpuMap := [("0",0),("1",0),("2",100),("3",0)], mem := 10, numaMem := [("n0",0),("n1",10)] } } 100 (-1)
+    { cpuReq := 1000, cpuLim := 1000, memReq := 10, memLim := 10, cpuMap := [("2",100)], numa := "n1", numaMem := [("n1",10)] }
+    (keepReq 0) ["n1", "n0"]
+    = .ok { cpuReq := 1000, cpuLim := 1000, memReq := 10, memLim := 10, cpuMap := [("2",100)], numa := "n1", numaMem := [("n1",10)] } := by decide
 
 /-- the guards are satisfiable: a two-core workload on a four-core node keeps its cores -/
 example : calculateRealloc
